@@ -225,6 +225,12 @@ def run(pid, tier):
                                   "wire_format": {"what": "Enc events of FOR/PFOR/RLE/delta/group/dict/Elias gamma+delta arrays/BP128 (32, 64, delta) and the adaptive envelope with <= 40 values compared byte for "
                                                           "byte with Wire.tla (unclaimed conformance fact, never a violation)",
                                                   "checked": notes.get("wire-checked", 0),
-                                                  "drift": {k: v for k, v in notes.items() if k.startswith("wire-drift")}}})
+                                                  "drift": {k: v for k, v in notes.items() if k.startswith("wire-drift")}},
+                                  "analysis_facts": {"what": "varintAdaptiveAnalyze / CheckSorted / CountUnique on arrays of up to 200 "
+                                                             "values: count, min, max, range, largest step, unique count, order "
+                                                             "flags, bitmap-range flag compared with the same statistics computed "
+                                                             "in TLA+ from the values (unclaimed conformance fact)",
+                                                     "checked": notes.get("stat-checked", 0),
+                                                     "drift": {k: v for k, v in notes.items() if k.startswith("stat-drift")}}})
     finally:
         shutil.rmtree(work, ignore_errors=True)
